@@ -30,8 +30,43 @@ def mk_signer(kind, cn):
     return key, cert
 
 
+def ed25519_block(sf, cn):
+    """PKCS#7 SignedData with one Ed25519 signer over signed attributes (built by hand: the builder knows RSA/EC only)."""
+    from asn1crypto import algos, cms, core as acore, x509 as ax509
+    from cryptography.hazmat.primitives.asymmetric import ed25519
+    key = ed25519.Ed25519PrivateKey.generate()
+    name = x509.Name([x509.NameAttribute(NameOID.COMMON_NAME, cn), x509.NameAttribute(NameOID.ORGANIZATION_NAME, "Verif Corpus")])
+    cert = (x509.CertificateBuilder().subject_name(name).issuer_name(name).public_key(key.public_key())
+            .serial_number(x509.random_serial_number()).not_valid_before(datetime.datetime(2020, 1, 1))
+            .not_valid_after(datetime.datetime(2040, 1, 1)).sign(key, None))
+    acert = ax509.Certificate.load(cert.public_bytes(serialization.Encoding.DER))
+    attrs = cms.CMSAttributes([
+        cms.CMSAttribute({"type": "content_type", "values": ["data"]}),
+        cms.CMSAttribute({"type": "message_digest", "values": [hashlib.sha512(sf).digest()]}),
+    ])
+    to_sign = b"\x31" + attrs.dump()[1:]
+    sig = key.sign(to_sign)
+    si = cms.SignerInfo({
+        "version": "v1",
+        "sid": cms.SignerIdentifier({"issuer_and_serial_number": cms.IssuerAndSerialNumber(
+            {"issuer": acert.issuer, "serial_number": acert.serial_number})}),
+        "digest_algorithm": algos.DigestAlgorithm({"algorithm": "sha512"}),
+        "signed_attrs": attrs,
+        "signature_algorithm": algos.SignedDigestAlgorithm({"algorithm": "ed25519"}),
+        "signature": sig,
+    })
+    sd = cms.SignedData({
+        "version": "v1",
+        "digest_algorithms": [algos.DigestAlgorithm({"algorithm": "sha512"})],
+        "encap_content_info": {"content_type": "data"},
+        "certificates": [acert],
+        "signer_infos": [si],
+    })
+    return cms.ContentInfo({"content_type": "signed_data", "content": sd}).dump()
+
+
 def build(name, signers):
-    """signers: [(block name, kind, hash, attrs: bool)]"""
+    """signers: [(block name, kind, hash, attrs: bool | "embedded")]   kind: ec | rsa | ed25519"""
     entries = []
     with zipfile.ZipFile(BASE) as z:
         for zi in z.infolist():
@@ -47,11 +82,16 @@ def build(name, signers):
     with zipfile.ZipFile(out, "w", zipfile.ZIP_DEFLATED) as z:
         z.writestr("META-INF/MANIFEST.MF", mf)
         for block, kind, h, attrs in signers:
+            z.writestr("META-INF/%s.SF" % block, sf)
+            if kind == "ed25519":
+                z.writestr("META-INF/%s.EC" % block, ed25519_block(sf, "signer-" + block.lower()))
+                continue
             key, cert = mk_signer(kind, "signer-" + block.lower())
-            opts = [pkcs7.PKCS7Options.DetachedSignature, pkcs7.PKCS7Options.Binary]
+            opts = [pkcs7.PKCS7Options.Binary]
+            if attrs != "embedded":
+                opts.append(pkcs7.PKCS7Options.DetachedSignature)      # "embedded": the block carries a copy of the .SF
             opts.append(pkcs7.PKCS7Options.NoCapabilities if attrs else pkcs7.PKCS7Options.NoAttributes)
             der = pkcs7.PKCS7SignatureBuilder().set_data(sf).add_signer(cert, key, h()).sign(serialization.Encoding.DER, opts)
-            z.writestr("META-INF/%s.SF" % block, sf)
             z.writestr("META-INF/%s.%s" % (block, "EC" if kind == "ec" else "RSA"), der)
         for fn, data in entries:
             z.writestr(fn, data)
@@ -62,6 +102,14 @@ def build(name, signers):
 
 if __name__ == "__main__":
     os.makedirs(OUT, exist_ok=True)
+    import sys
+    if "--new-only" in sys.argv:
+        build("gen-embedded-content-ec.apk", [("CERT", "ec", hashes.SHA256, "embedded")])
+        build("gen-dotted-block-names.apk", [("CERT", "ec", hashes.SHA256, True), ("CERT.V2", "ec", hashes.SHA256, True),
+                                             ("CERT.V2.X", "rsa", hashes.SHA256, False)])
+        build("gen-ed25519-signer.apk", [("ED", "ed25519", None, True)])
+        build("gen-ed25519-plus-ec.apk", [("A", "ec", hashes.SHA256, True), ("ED", "ed25519", None, True)])
+        raise SystemExit(0)
     build("gen-two-ec-signers-signed-attrs.apk", [("ALPHA", "ec", hashes.SHA256, True), ("BETA", "ec", hashes.SHA256, True)])
     build("gen-rsa-attrs-plus-ec-noattrs.apk", [("ONE", "rsa", hashes.SHA256, True), ("TWO", "ec", hashes.SHA256, False)])
     build("gen-three-signers-mixed.apk", [("A", "ec", hashes.SHA512, True), ("B", "rsa", hashes.SHA512, True), ("C", "ec", hashes.SHA384, False)])
